@@ -88,6 +88,14 @@ def random_part_cfgs(tier, base_id=200000):
                 lo = [rnd.uniform(-100, 100) for _ in range(D)] if rep >= 2 and rep % 3 == 0 else None
                 b = box if lo is None else [[lo[x], lo[x] + abs(rnd.gauss(0, 10)) + 1e-3] for x in range(D)]
                 cfgs.append({"id": i, "kind": kind, "K": K, "D": D, "box": b, "seed": rnd.randrange(1 << 30), "nops": rnd.randint(4, 14), "maxcells": 160 if kind != "dbin" else 220, "force_endpoints": force, "p_deepen": rnd.choice([0.1, 0.3, 0.6])})
+    # deep chains along the first / last child: depth 70 (labels beyond 2^63 for arity >= 3, cells at float resolution)
+    for (kind, K) in A.PART_KINDS:
+        for side in ("first", "last"):
+            for box in ([[0.0, 1.0]], [[-1.5, 2.25], [10.0, 11.0]]):
+                if tier == "quick" and (side == "first") != (len(box) == 1):
+                    continue
+                i += 1
+                cfgs.append({"id": i, "kind": kind, "K": K, "D": len(box), "box": box, "seed": rnd.randrange(1 << 30), "chain": side, "chain_depth": 70 if kind != "dbin" or len(box) == 1 else 40, "maxcells": 10 ** 6})
     return cfgs
 
 
